@@ -538,6 +538,8 @@ def run(ctx):
     ctx.require('emits_judged', 5)
     ctx.require('connect_time_arrival_scenarios', 10)
     ctx.require('loss_mid_message_scenarios', 10)
+    ctx.require('application_disconnect_scenarios', 10)
+    ctx.require('non_blocking_poll_scenarios', 10)
     ctx.extra['scenarios'] = {}
     limit = 1200 if ctx.tier == 'quick' else 40000
     order = [0, 5, 8, 1, 6, 9, 2, 7, 10, 3, 4]
@@ -654,7 +656,7 @@ def loss_mid_message(ctx, k):
     import socketio
     from vlib import refcodec as RR
     rng = ctx.case_rng(5 * 10 ** 7 + k)
-    kind = 'sync' if k % 2 == 0 else 'async'
+    kind = rng.choice(['sync', 'async'])
     ns = rng.choice(['/', '/a'])
     n_before = rng.randint(0, 2)
     n_after = rng.randint(1, 3)
@@ -733,6 +735,146 @@ def loss_mid_message(ctx, k):
                   keep), None)
 
 
+class _Blocked(Exception):
+    pass
+
+
+def after_disconnect_and_polls(ctx, k):
+    """(a) The application ends the connection itself with disconnect(): that
+    is an end for good - the events still buffered are returned, then
+    receive() raises DisconnectedError (never TimeoutError, never a wait
+    without end), and emit() / call() raise DisconnectedError.
+    (b) Non-blocking polls: receive(timeout=0) returns an event that is
+    already buffered and raises TimeoutError only when none is."""
+    import socketio
+    from vlib import refcodec as RR
+    rng = ctx.case_rng(6 * 10 ** 7 + k)
+    kind = rng.choice(['sync', 'async'])
+    ns = rng.choice(['/', '/a'])
+    n_ev = rng.randint(0, 3)
+    n_read = rng.randint(0, n_ev)
+    polls = rng.random() < 0.5
+    h = E.make_client(kind, client_kw={'reconnection': rng.random() < 0.5})
+    results = []
+    after = []
+
+    def rec(dst, f):
+        try:
+            dst.append(('ok', f()))
+        except _Blocked:
+            dst.append(('blocks for ever', None))
+        except Exception as e:
+            dst.append((type(e).__name__, None))
+    try:
+        if kind == 'async':
+            class SCli(socketio.AsyncSimpleClient):
+                client_class = staticmethod(lambda *a, **kw: h.c)
+
+            async def arec(dst, coro, bound=50):
+                try:
+                    dst.append(('ok', await asyncio.wait_for(coro, bound)))
+                except asyncio.TimeoutError:
+                    # (python 3.11+: the same class as TimeoutError; told
+                    # apart by the virtual time that has passed)
+                    dst.append(('TimeoutError', None))
+                except Exception as e:
+                    dst.append((type(e).__name__, None))
+
+            async def go():
+                sc = SCli()
+                await sc.connect('http://x', namespace=ns)
+                for i in range(n_ev):
+                    h.deliver(RR.EVENT, ns, None, ['ev', i])
+                await asyncio.sleep(0.01)
+                loop = asyncio.get_running_loop()
+                for _ in range(n_read):
+                    await arec(results, sc.receive(
+                        timeout=0 if polls else 1))
+                if polls:
+                    # drain with non-blocking polls, then one more
+                    for _ in range(n_ev - n_read + 1):
+                        await arec(results, sc.receive(timeout=0))
+                    return
+                await sc.disconnect()
+                for _ in range(n_ev - n_read + 1):
+                    t0 = loop.time()
+                    await arec(after, sc.receive(timeout=1))
+                    if after[-1][0] == 'TimeoutError' and \
+                            loop.time() - t0 > 40:
+                        after[-1] = ('blocks for ever', None)
+                for call in (lambda: sc.emit('x', 1),
+                             lambda: sc.call('x', 1, timeout=1)):
+                    t0 = loop.time()
+                    await arec(after, call())
+                    if after[-1][0] == 'TimeoutError' and \
+                            loop.time() - t0 > 40:
+                        after[-1] = ('blocks for ever', None)
+            h.run(go(), horizon=400)
+        else:
+            class SCli(socketio.SimpleClient):
+                client_class = staticmethod(lambda *a, **kw: h.c)
+            sc = SCli()
+            sc.connected_event = E.HEvent(h, 'connected_event')
+            sc.input_event = E.HEvent(h, 'input_event')
+            h.call(sc.connect, 'http://x', namespace=ns)
+            for i in range(n_ev):
+                h.deliver(RR.EVENT, ns, None, ['ev', i])
+            h.pump()
+
+            def idle(ev, tmo):
+                # a wait without timeout on which nothing can ever happen
+                if tmo is None:
+                    raise _Blocked()
+                return False
+            for _ in range(n_read):
+                rec(results, lambda: h.call(sc.receive,
+                                            timeout=0 if polls else 1))
+            if polls:
+                for _ in range(n_ev - n_read + 1):
+                    rec(results, lambda: h.call(sc.receive, timeout=0))
+            else:
+                h.call(sc.disconnect)
+                h.idle_hook = idle
+                for _ in range(n_ev - n_read + 1):
+                    rec(after, lambda: h.call(sc.receive, timeout=1))
+                rec(after, lambda: h.call(sc.emit, 'x', 1))
+                rec(after, lambda: h.call(sc.call, 'x', 1, timeout=1))
+    finally:
+        h.close()
+    w = {'part': 'after_disconnect_and_polls', 'case_index': k,
+         'kind': kind, 'namespace': ns, 'events': n_ev,
+         'read_before': n_read, 'non_blocking_polls': polls,
+         'results': jsonable(results), 'after_disconnect': jsonable(after),
+         'errors': h.all_errors()[:3]}
+    evs = [('ok', ['ev', i]) for i in range(n_ev)]
+    if h.all_errors():
+        ctx.violation(None, 'error escaped (%s)' % h.all_errors()[0]['exc'],
+                      w)
+        return
+    if polls:
+        ctx.count('non_blocking_poll_scenarios')
+        want = evs + [('TimeoutError', None)]
+        if results != want:
+            ctx.violation(None, 'non-blocking polls (receive(timeout=0)) '
+                          'with %d event(s) buffered gave %r' % (
+                              n_ev, [r[0] if r[0] != 'ok' else r[1]
+                                     for r in results]), w)
+            return
+    else:
+        ctx.count('application_disconnect_scenarios')
+        want_after = evs[n_read:] + [('DisconnectedError', None)] * 3
+        if results != evs[:n_read] or after != want_after:
+            ctx.violation(None, 'after the application called disconnect() '
+                          'with %d event(s) still buffered: receive x%d, '
+                          'emit, call gave %r' % (
+                              n_ev - n_read, n_ev - n_read + 1,
+                              [r[0] if r[0] != 'ok' else r[1]
+                               for r in after]), w)
+            return
+    ctx.case(('after_disconnect_and_polls', kind, ns, n_ev, n_read, polls),
+             None)
+
+
 def random_batch(ctx, k, n):
     for _ in range(n):
         if ctx.out_of_time() or ctx.too_many_violations():
@@ -753,6 +895,8 @@ def random_batch(ctx, k, n):
             connect_arrivals(ctx, k)
         if k % 7 == 0:
             loss_mid_message(ctx, k)
+        if k % 6 == 0:
+            after_disconnect_and_polls(ctx, k)
         k += 1
     return k
 
@@ -763,6 +907,8 @@ def replay(ctx, w):
         return connect_arrivals(ctx, wi['case_index'])
     if wi.get('part') == 'loss_mid_message':
         return loss_mid_message(ctx, wi['case_index'])
+    if wi.get('part') == 'after_disconnect_and_polls':
+        return after_disconnect_and_polls(ctx, wi['case_index'])
     spec, choices = wi['scenario'], wi.get('choices') or []
     if wi.get('kind') == 'async':
         sc = AsyncScenario(ctx, spec, choices, None)
